@@ -99,8 +99,24 @@ def run(prog):
     return out
 
 
+def _keyed_memo(prog, adt, lzf):
+    """the cell remembers (key, value) of a query — what is stored mentions a parameter of the storing method other than
+    self: that is a memo of lookups (its key is the business of the cache rules GL / CP), not a summary derived from the
+    other fields"""
+    for fn in prog.lib_fns:
+        if fn.impl_self != adt or "{closure" in fn.npath:
+            continue
+        for cs in fn.terms.calls:
+            if cs.callee.name in ("set", "replace") and len(cs.args) == 2 and _field_of_self(cs.args[0], [lzf]):
+                if any(x[0] == "param" and x[1] > 1 for x in mir.subterms(cs.args[1])):
+                    return True
+    return False
+
+
 def _check(prog, adt, lazy, src, eager=False):
     out = []
+    if not eager:
+        lazy = [l for l in lazy if not _keyed_memo(prog, adt, l)]
     if True:
         for fn in prog.lib_fns:
             if fn.impl_self != adt or "{closure" in fn.npath or len(fn.locals) < 2:
